@@ -11,7 +11,7 @@ import pandas as pd
 
 from . import api
 from .fworld import rng_of
-from .monitors import digest, InitialSize, KernelShim, integrator_state
+from .monitors import digest, snapshot_digest, InitialSize, KernelShim, integrator_state
 from .shrink import ddmin_list
 
 PROP = 'C19'
@@ -88,14 +88,26 @@ def _unused():
 
 
 def _state_digest(obj, ignore=()):
-    """Observable state of an object argument."""
-    from pyins import strapdown
+    """Snapshot of an argument, as {part: digest}.
+
+    Arrays, tables, series, lists: one digest (values, labels, axis names).  Objects: one
+    digest per PUBLIC attribute present at the time of the snapshot - what a caller can
+    see and owns; private (underscore) attributes and attributes that appear later (lazy
+    caches) are the object's own business and are judged through behaviour (repeat /
+    isolated-replay / second-run monitors), not through this snapshot.
+    """
     if type(obj).__name__ == 'Integrator' and hasattr(obj, 'trajectory'):
-        return digest(integrator_state(obj))
-    if hasattr(obj, '__dict__') and not isinstance(obj, (pd.DataFrame, pd.Series,
-                                                         np.ndarray)) and ignore:
-        return digest({k: v for k, v in vars(obj).items() if k not in ignore})
-    return digest(obj)
+        return {'<state>': snapshot_digest(integrator_state(obj))}
+    if hasattr(obj, '__dict__') and not isinstance(obj, (pd.DataFrame, pd.Series, np.ndarray,
+                                                          type)) and not callable(obj):
+        return {k: snapshot_digest(v) for k, v in vars(obj).items()
+                if not k.startswith('_') and k not in ignore}
+    return {'<value>': snapshot_digest(obj)}
+
+
+def _state_changed(before, obj, ignore=()):
+    after = _state_digest(obj, ignore)
+    return any(after.get(k) != d for k, d in before.items())
 
 
 def _flatten(res, out):
@@ -266,7 +278,7 @@ def execute(sc, only_first=True):
             digs.append(digest(res))
             # ---- 1. argument snapshot
             for a, v, before in watch:
-                if _state_digest(v, a.ignore) != before:
+                if _state_changed(before, v, a.ignore):
                     which = type(v).__name__
                     viol.append(V('argument-modified',
                                   f"call #{k} {desc} modified one of its arguments "
@@ -457,4 +469,4 @@ def describe():
                                              'series', 'dataframe', 'row0', 'cols_permuted',
                                              'cols_reversed', 'extra_leading_col',
                                              'np_int64', 'np_int32', 'labels_permuted',
-                                             'labels_reversed')])
+                                             'labels_reversed', 'int64', 'int_list')])
